@@ -1508,14 +1508,14 @@ static void replayFault(W& w, const std::string& cs)
     judgeFaulted(w, h, seq, kv["oracle"] == "S" ? 'S' : 'M');
 }
 
-static void enumFaults(W& w, const BaseHist& h, FaultCase& fc, const std::vector<Inst>& seq, int remaining, int total)
+static void enumFaults(W& w, const BaseHist& h, FaultCase& fc, const std::vector<Inst>& seq, int remaining, int total, char oracle = 'M')
 {
     if (remaining == 0)
     {
-        auto desc = [&] { return showFault(fc); };
+        auto desc = [&] { return showFault(fc) + (oracle == 'S' ? ";oracle=S" : ""); };
         if (!w.begin_case(desc))
             return;
-        judgeFaulted(w, h, seq);
+        judgeFaulted(w, h, seq, oracle);
         w.add(mc::C_TRACES, 1);
         w.add(mc::C_STATES, seq.size());
         return;
@@ -1528,7 +1528,7 @@ static void enumFaults(W& w, const BaseHist& h, FaultCase& fc, const std::vector
             if (!applyFault(n, kind, pos))
                 continue;
             fc.faults.push_back({kind, (int) pos});
-            enumFaults(w, h, fc, n, remaining - 1, total);
+            enumFaults(w, h, fc, n, remaining - 1, total, oracle);
             fc.faults.pop_back();
         }
 }
@@ -1564,6 +1564,8 @@ int main(int argc, char** argv)
                 replayMerge(w, cs, oracle);
             else if (kv["k"] == "fan")
                 fanOut(w, oracle, atoi(kv["n"].c_str()), atoi(kv["o"].c_str()));
+            else if (kv["k"] == "fault")
+                replayFault(w, cs);
             else if (kv["k"] == "gap")
                 longGap(w, oracle, atoi(kv["kind"].c_str()), atoi(kv["n"].c_str()));
             else if (kv["k"] == "big")
@@ -1596,6 +1598,35 @@ int main(int argc, char** argv)
                           if (!w.begin_case(desc))
                               return;
                           longGap(w, oracle, kind, n);
+                      });
+        }
+        if (prop == "C18")
+        {
+            // a decode call of one endpoint's frame that ends in an exception (memory exhaustion at any allocation) must not change
+            // what the OTHER endpoints get: two-endpoint base histories of C06, one aborted call (with / without retry) alone and
+            // together with one more fault of any kind, the endpoints without aborted call compared with their solo decoders
+            struct T { int base, kind, pos; };
+            std::vector<T> ts;
+            std::vector<BaseHist> bases;
+            for (int b = 0; b < 7; ++b)
+                bases.push_back(baseHistory(b));
+            for (int b : {2, 5, 6})
+                for (int k = NFAULT; k < NFAULT_ALL; ++k)
+                    for (size_t p = 0; p < bases[b].frames.size(); ++p)
+                        ts.push_back({b, k, (int) p});
+            run.round("two-endpoint histories with a decode call aborted at its n-th allocation (every n, every frame, with / without retry), alone and with one more fault: other endpoints vs their solo decoders",
+                      ts.size(), [&, ts, bases](W& w, uint64_t o) {
+                          const T& t = ts[o];
+                          const BaseHist& h = bases[t.base];
+                          FaultCase fc;
+                          fc.base = t.base;
+                          auto seq = instances(h);
+                          if (!applyFault(seq, t.kind, (size_t) t.pos))
+                              return;
+                          fc.faults.push_back({t.kind, t.pos});
+                          enumFaults(w, h, fc, seq, 0, 1, 'S');
+                          if (t.base != 6)
+                              enumFaults(w, h, fc, seq, 1, 2, 'S');
                       });
         }
         if (prop == "C17" || prop == "C18")
